@@ -145,6 +145,20 @@ def run(ctx):
                     if hi_ is not None and hi_ < amt[2][1][1]:
                         ctx.ok("R20-no-panic-on-input", "%s:%s" % (k, kind), "shift-amount check is dead: dominating facts give %s <= %s < %s" % (fmt(amt[2][0]), hi_, amt[2][1][1]))
                         continue
+            if kind == "Assert:Overflow:Sub":
+                # (1 << k) - 1 cannot underflow: a set bit is at least 1
+                tbf = TermBuilder(f, prog)
+                blk_ = f.blocks[bi]
+                dead = False
+                for si_ in range(len(blk_.stmts) - 1, -1, -1):
+                    st_ = blk_.stmts[si_]
+                    if st_.k == "assign" and st_.rv.k == "binop" and st_.rv.j["op"] == "SubWithOverflow":
+                        a_, b_ = (tbf.operand(o_, bi, si_) for o_ in st_.rv.ops)
+                        dead = a_[0] == "op" and a_[1] == "Shl" and a_[2][0] == const(1) and b_ == const(1)
+                        break
+                if dead:
+                    ctx.ok("R20-no-panic-on-input", "%s:%s" % (k, kind), "(1 << k) - 1 cannot underflow")
+                    continue
             ps.append(site)
         for (bi, kind, detail, span) in ps:
             n_sites += 1
